@@ -32,6 +32,21 @@ const MAX_GEN_ITERS: usize = 4096;
 const MAX_INST_DEPTH: usize = 24;
 const MAX_WIDTH: usize = 1 << 16;
 
+thread_local! {
+    /// Defect-emulation switches (attribution only, never for a verdict): bit 0x2 = a widening size cast
+    /// `N'(e)` behaves like `N'($unsigned(e))` (what the Veryl simulator computes for `e as N` used as an operand).
+    static EMULATE: std::cell::Cell<u8> = const { std::cell::Cell::new(0) };
+}
+
+/// Set the defect-emulation switches for svref instances built on THIS thread.
+pub fn set_emulation(flags: u8) {
+    EMULATE.with(|e| e.set(flags));
+}
+
+fn emulation() -> u8 {
+    EMULATE.with(|e| e.get())
+}
+
 // ------------------------------------------------------------------------------------------------
 // types
 
@@ -690,7 +705,12 @@ impl<'a> Exec<'a> {
                             if n <= 0 || n as usize > MAX_WIDTH {
                                 return Err(SvErr::unsupported("cast size"));
                             }
-                            BE::Cast(n as usize, Box::new(self.lower(x)?))
+                            let lx = self.lower(x)?;
+                            if emulation() & 2 != 0 && (n as usize) > bv4::expr_type(&lx).0 {
+                                BE::Cast(n as usize, Box::new(BE::Unsigned(Box::new(lx))))
+                            } else {
+                                BE::Cast(n as usize, Box::new(lx))
+                            }
                         }
                     }
                 }
